@@ -15,6 +15,19 @@ CLAIMED = {
         technique='Coq proof (invariant induction over Q) + differential correspondence via vm_compute'),
 }
 
+CLAIMED['C04'] = dict(
+    category='proof',
+    text='The pair check of _sort_transitions is modelled literally (combinations order, strict-ancestor LCA, '
+         'stays-below test); Coq theorems give the complete classification of a pair, NonDeterminismError / '
+         'ConflictingTransitionsError / no error for every list of selected transitions, that the first offending '
+         'pair decides, and that when either error is raised the interpreter state is the old one up to the sampled '
+         'step time (nothing exited, entered, executed, consumed). Tied to default.py by one-operation '
+         'correspondence cases evaluated by vm_compute from the implementation\'s own pre-state.',
+    design_ref='DESIGN.md section 6 (C04)',
+    note='Trusted: Coq kernel+VM; hand-written model validated differentially on generated cases only; which error '
+         'wins when both kinds of offending pairs exist is not fixed by the property (the model fixes it as the code does).',
+    technique='Coq proof (case analysis + frame lemmas) + step-local differential correspondence via vm_compute')
+
 NOT_YET = {}
 
 ALL = ['C%02d' % i for i in range(1, 21)]
